@@ -13,7 +13,7 @@ from ..world import World, inventory, inv_brief
 ID = "C10"
 LEVEL = "exploration"
 BUDGET = {"quick": {"n": 250, "trunc_reports": 3, "short_len": 2, "wall_s": 420}, "thorough": {"n": 6000, "trunc_reports": 40, "short_len": 3, "wall_s": 3300}}
-RULE = ("(long paths) 4 worlds with paths near PATH_MAX and paths whose escaped form exceeds it several times. (short names, exhaustive) every string of 1..2 (thorough 1..3) symbols of a 17-symbol alphabet {space, tab, LF, CR, quotes, "
+RULE = ("(sizes) 4 worlds of sparse files whose lengths and byte totals sit where the human-readable size changes unit or width. (long paths) 4 worlds with paths near PATH_MAX and paths whose escaped form exceeds it several times. (short names, exhaustive) every string of 1..2 (thorough 1..3) symbols of a 17-symbol alphabet {space, tab, LF, CR, quotes, "
         "backslash, $, *, #, comma, colon, an invalid UTF-8 byte, a 2-byte character, -, ., a} as a file name and as a directory "
         "name, through the roundtrip below. (roundtrip) seeded worlds with hostile name alphabets incl. confusable siblings, --isolate roots with hostile "
         "names; `group` writes text and JSON; `remove --dry-run` reads each back: the sequence of raw paths it stats must "
@@ -101,8 +101,24 @@ def long_path_worlds():
     return out
 
 
+def size_worlds():
+    """file lengths and byte totals around the places where the human-readable size changes its unit or its
+    number of digits (999.9 KB / 1000.0 KB / 1.0 MB ...); sparse files, so a megabyte costs nothing"""
+    out = []
+    for lens in ([999949, 999950, 1000000], [1048575, 1048576, 1048577], [500000, 999], [1023, 1024, 1000]):
+        w = World()
+        for k, n in enumerate(lens):
+            for side in ("a", "b"):
+                w.add_file("r/%s/s%d" % (side, k), {"sparse": n})
+        out.append(w)
+    return out
+
+
 def gen_cases(tier, seed):
     b = BUDGET[tier]
+    for wi, w in enumerate(size_worlds()):
+        yield {"i": 4 * 10**6 + wi, "kind": "roundtrip", "cfg": None, "world": w.to_json(), "roots": ["r"],
+               "gflags": [], "seam_seed": 7}
     for wi, w in enumerate(long_path_worlds()):
         yield {"i": 3 * 10**6 + wi, "kind": "roundtrip", "cfg": None, "world": w.to_json(), "roots": ["r"],
                "gflags": [], "seam_seed": 7}
